@@ -150,6 +150,7 @@ package raft
 //@ spec prevMatches(r, q) = q.PrevLogIndex <= Llast && ((q.PrevLogIndex == r.lastIncludedIndex && q.PrevLogTerm == r.lastIncludedTerm) || (r.lastIncludedIndex < q.PrevLogIndex && Lterm[q.PrevLogIndex] == q.PrevLogTerm))
 
 //@ func Raft.AppendEntries
+//@   flags splitexits
 //@   requires request != nil && response != nil && WF(request)
 //@   let P = request.PrevLogIndex
 //@   let n = len(request.Entries)
